@@ -24,7 +24,8 @@ LEAN_TARGETS = ["LoguruModel.Props.C13"]
 AUDIT_FILE = "LoguruModel/Audit/C13.lean"
 DRIVER = "C13"
 RULE = ("one case = (generated program, entry point, sys.tracebacklimit) logged through 8 handlers "
-        "(backtrace x diagnose x colorize); programs are built from call/raise/from/implicit-context/from-None/"
+        "(backtrace x diagnose x colorize), entry points opt(exception=) / catch decorator / catch context manager / ONE "
+        "catch object reused over 2-5 decorator and context-manager uses (last use judged); programs are built from call/raise/from/implicit-context/from-None/"
         "re-raise/notes/groups/groups-in-handlers/cycles/never-raised causes/SyntaxError/recursion/bad __str__/"
         "customised __eq__ __hash__ __len__ (unhashable dataclass, raising hash/eq, eq-always-True, value-equal "
         "instances meeting in one chain, falsy) "
@@ -430,6 +431,29 @@ def capture_heap(exc_info, genfile):
     return heap
 
 
+def _harmless():
+    return 1
+
+
+def _raising():
+    raise LookupError("earlier use")
+
+
+def entry_from_dec(entry):
+    return entry == "decorator" or (entry.startswith("shared:") and entry.endswith(":d"))
+
+
+def shared_entries(seed):
+    """two reuse patterns for a program: 1-4 earlier uses (d = decorate and call, D = decorate only, c = empty
+    with-block, x / X = with-block / decorated function that raises and is logged), then the judged use"""
+    r = core.Rng(seed ^ 0x5EED)
+    out = []
+    for final in ("c", "d"):
+        prior = "".join(r.choice("dDcxXdc") for _ in range(r.range(1, 4)))
+        out.append("shared:%s:%s" % (prior, final))
+    return out
+
+
 def run_case(src, genfile, entry, limit):
     """execute the program and log its exception through the 8 handlers; returns (outputs, heap, error)"""
     from loguru import logger
@@ -458,6 +482,31 @@ def run_case(src, genfile, entry, limit):
                     logger.opt(exception=e).error("M")
             elif entry == "decorator":
                 logger.catch(message="M")(main)()
+            elif entry.startswith("shared:"):
+                # ONE catch object used several times, as decorator and as context manager in any order; the
+                # property's clauses are about each use, so only the last (logged and judged) use matters
+                _s, prior, final = entry.split(":")
+                guard = logger.catch(message="M")
+                for u in prior:
+                    if u == "d":
+                        guard(_harmless)()
+                    elif u == "D":
+                        guard(_harmless)
+                    elif u == "c":
+                        with guard:
+                            pass
+                    elif u == "x":
+                        with guard:
+                            raise LookupError("earlier use")
+                    elif u == "X":
+                        guard(_raising)()
+                shared.update(heap=None, exc=None, noexc=False)
+                shared["out"].clear()
+                if final == "d":
+                    guard(main)()
+                else:
+                    with guard:
+                        main()
             else:
                 with logger.catch(message="M"):
                     main()
@@ -839,7 +888,7 @@ def shared_nodes(heap):
 
 def judge_case(ctx, rep, src, genfile, entry, limit, outs, heap, exc_info, err, lines, pending):
     """all direct oracles for one executed case; queues the model lines"""
-    from_dec = entry == "decorator"
+    from_dec = entry_from_dec(entry)
     if isinstance(err, SkipCase):
         ctx.stat("skipped:" + str(err))
         return
@@ -1032,12 +1081,13 @@ def run(ctx):
     probe_f12(ctx)
     run_corpus(ctx, lines, pending)
 
-    nprog = ctx.n(220, 500) * boost
+    nprog = ctx.n(300, 400) * boost
     std_lines, std_expect = [], []
     for i in range(nprog):
         seed = rng.next()
         src, features = gen_case(seed)
-        entries = [ENTRIES[i % 3]] if ctx.quick else ENTRIES
+        all_entries = ENTRIES + shared_entries(seed)
+        entries = [all_entries[i % 5]] if ctx.quick else all_entries
         limits = [LIMITS[(i // 3) % 4]] if ctx.quick and i % 2 else ([None] if ctx.quick else LIMITS)
         for entry in entries:
             for limit in limits:
@@ -1047,7 +1097,8 @@ def run(ctx):
                 nontrivial = heap is not None and (len(heap) >= 2 or any(x["group"] is not None for x in heap)
                                                    or any(f.startswith("recursion") for f in features))
                 ctx.case((seed, entry, limit), nontrivial=nontrivial, n=8)
-                ctx.stat("entry:" + entry)
+                ctx.stat("entry:" + (entry if not entry.startswith("shared:") else "shared object, judged use " +
+                                     ("decorator" if entry.endswith(":d") else "context manager")))
                 ctx.stat("limit:%s" % limit)
                 if heap is not None:
                     ctx.stat("heap_size:%s" % (len(heap) if len(heap) < 6 else "6+"))
@@ -1096,7 +1147,18 @@ def run(ctx):
         val_lines.append("vlines 128 %s %s" % ("!" if r is None else enc(r[:WIRE]), enc(ty[:WIRE])))
         val_exp.append((spec, got))
 
-    out = drv.run(lines + std_lines + val_lines)
+    # ---- Exc.runUses: the flag each use of one catch object reports (model) = what the judged use was run as
+    use_lines, use_exp = [], []
+    for pat in sorted(set(m[0]["entry"] for m in pending if str(m[0].get("entry", "")).startswith("shared:"))):
+        _s, prior, final = pat.split(":")
+        kinds = "".join("d" if u in "dDX" else "c" for u in prior + final)
+        use_lines.append("uses " + kinds)
+        use_exp.append((pat, "ok " + "".join("1" if k == "d" else "0" for k in kinds)))
+    out = drv.run(lines + std_lines + val_lines + use_lines)
+    for (pat, exp), o in zip(use_exp, out[len(lines) + len(std_lines) + len(val_lines):]):
+        ctx.evaluations += 1
+        if o != exp:
+            ctx.broke("correspondence Exc.runUses", "%s: model %r, expected %r" % (pat, o, exp))
     nbad = 0
     per_mode = []
     for o in out[:len(lines)]:
